@@ -362,7 +362,7 @@ def builder(ctx, cr):
                     o = rv["ops"][fl.index("status")]
                     if not const_status_is(cr, fx, o, 1):
                         bad.append("%s line %s" % (k, s.get("ln")))
-    ctx.ob(rule, rule + ":DependentRule-built-with-FAIL", not bad and n >= 2, "MissingValueCheck constructed with a status other than the constant FAIL at %s" % bad[:3] if bad else "%d constructions" % n)
+    ctx.ob(rule, rule + ":DependentRule-built-with-FAIL", not bad and n >= 1, "MissingValueCheck constructed with a status other than the constant FAIL at %s" % bad[:3] if bad else "%d constructions" % n)
     # custom messages
     mrule = "R-C09-custom-message"
     for (kind, cc), srcs in sorted(msg_rows.items(), key=str):
@@ -636,6 +636,17 @@ def failed_values_only(ctx, cr):
                 fl = [x["name"] for x in cr.adts[rv["adt"]]["variants"][0]["fields"]]
                 c = const_of(f, rv["ops"][fl.index("status")])
                 statuses.add(c[1] if c else "?")
+        if "Status::FAIL" not in statuses:
+            # the record may be built by a private helper of the file that the loop body calls
+            for bi, t2 in M.iter_calls(f):
+                callee = cr.fns.get(t2["fn"].get("key", "")) if t2["fn"].get("local") else None
+                if bi in body and callee is not None and ai.is_private_fn(callee) and callee.get("file") == f.get("file"):
+                    for b2, s2, st2 in M.iter_stmts(callee):
+                        rv2 = st2.get("rv")
+                        if rv2 and rv2.get("r") == "agg" and str(rv2.get("adt", "")).endswith("InComparisonCheck"):
+                            fl2 = [x["name"] for x in cr.adts[rv2["adt"]]["variants"][0]["fields"]]
+                            c2 = const_of(callee, rv2["ops"][fl2.index("status")])
+                            statuses.add(c2[1] if c2 else "?")
         if "Status::FAIL" in statuses:
             found += 1
             if src != "diff":
